@@ -8,11 +8,11 @@ CLAIMED = {
          "Trusted: go/ssa; constant propagation over the two envelope functions. Everything value-level (the ciphers themselves, round-trip equality for all inputs) is outside the claim.",
          "DESIGN.md §4 C01, §5"),
  # id: (technique, level text, level note, design_ref)
- "C19": ("whole-program memory-effect / alias summaries over SSA (write-set, retention, result aliasing) on every exported API function",
+ "C19": ("whole-program memory-effect / alias summaries over SSA (write-set, retention, result aliasing) on every exported API function; retention contracts for atomic/sync containers; census of byte-buffer parameters kept in package-level state over all functions",
          "Structural decision of the three clauses of C19 (no write into byte-slice/proto parameters incl. append into spare capacity; no retention of parameter memory in receiver, globals or returned objects; no byte-slice/proto result aliasing receiver, globals or parameters) on all ~900 obligations of the exported API, by a summary-based points-to analysis of the type-checked program. A violating construct is named (function + instruction). This is the clause of C19 visible in code shape, and it is the whole of C19 modulo the stdlib contract table.",
          "Trusted: go/types+go/ssa model of the source; contract table for stdlib/x-crypto/protobuf callees (checker/effects/contracts.go); unlisted external callees assumed pure (listed in evidence); user-supplied tink interface implementations out of scope.",
          "DESIGN.md §4 C19, §2 engine B"),
- "C18": ("whole-program memory-effect summaries: receiver/global absent from the write set of every concurrent entry point; lock-dominance of every access to globals written after init",
+ "C18": ("whole-program memory-effect summaries: receiver/global absent from the write set of every concurrent entry point; lock-dominance of every access to globals written after init; typestate of sync.Pool objects (no result aliases an object put back); no write through a field holding a shared primitive from per-call objects",
          "Decides the structural necessary condition of C18 — no concurrent entry point (every method of every product type implementing a primitive/key/parameters interface, exported methods of Handle/Entry/prf.Set/PrefixMap, registry lookups: ~560 functions) writes memory reachable from the shared receiver or from a module package-level variable, including appends onto field slices and receiver-mutating stdlib methods on objects reachable from the receiver; plus lock discipline for the globals written after initialisation. Modulo the stdlib contract table this is also sufficient for race freedom of the library's own memory. Schedules themselves are not explored.",
          "Trusted: go/types+go/ssa; stdlib contract table incl. which stdlib objects are stateful; sync.Mutex/RWMutex/Map, atomic and crypto/rand.Reader are synchronised; user-supplied loggers/KMS clients/io objects are out of scope.",
          "DESIGN.md §4 C18, §2 engine B"),
@@ -20,11 +20,11 @@ CLAIMED = {
          "Discharges, over all writers of the Manager's state found by census, the side conditions of the inductive argument for the keyset invariant: atomicity of failing operations (no state write can be followed by a definitely-failing return), ID freshness/recording at every append site and in newRandomKeyID/NewManagerFromHandle/WithFixedID/Add, primary=>Enabled and non-primary-before-disable/delete guards on the same entry object, complete clearing loops after a primary is set, isolation of Handle()/NewManagerFromHandle() results (no shared entries slice or entry objects). It is a structural proof-obligation list, not an exploration of operation histories.",
          "Trusted: go/ssa; the hand argument from the listed side conditions to the invariant; idioms recognised (if-guards, range loops, comma-ok map lookups).",
          "DESIGN.md §4 C11"),
- "C13": ("constant folding of the secret-classification predicate over every KeyMaterialType constant; census + dominance of every ingress/egress site of cleartext keysets; single-call/argument-identity rules for the keyset encryption helpers; backward slices of keyset-info fields",
+ "C13": ("constant folding of the secret-classification predicate over every KeyMaterialType constant; census + dominance of every ingress/egress site of cleartext keysets; single-call/argument-identity rules for the keyset encryption helpers; backward slices of keyset-info fields; every key parser folded per KeyMaterialType label (exactly one label may succeed), fallback-key dominance in the generic ParseKey",
          "Decides the structural clauses of C13 completely: the per-key predicate of hasSecrets folds to true for UNKNOWN/SYMMETRIC/ASYMMETRIC_PRIVATE and false for PUBLIC/REMOTE independent of any other key field, and is applied to every key; every reference to the unguarded handle constructor and every cleartext Writer.Write is guarded by hasSecrets(same value)==false, fed by a checked decrypt*, or lives in the two insecure packages; decrypt*/encrypt* call the caller's AEAD exactly once with the caller's associated data and release a keyset only on its success; keyset-info fields derive from metadata only.",
          "Trusted: go/ssa; confidentiality of the caller's AEAD; a key whose KeyMaterialType label contradicts its type URL is left to the per-type parsers (not decided here).",
          "DESIGN.md §4 C13"),
- "C05": ("census of every PrimitiveFromKey site and wrapper method; value-identity and dominance rules for entry/keyID/prefix pairing, primary selection, candidate selection and logged key IDs",
+ "C05": ("census of every PrimitiveFromKey site and wrapper method; value-identity and dominance rules for entry/keyID/prefix pairing, primary selection, candidate selection and logged key IDs; constant folding of every key type's output-prefix function over variants x key IDs (incl. 0)",
          "Decides the selection rule of C05 structurally for all 16 factory sites and the wrappers they build: primitives come only from Enabled entries (iterator yield dominated by KeyStatus()==Enabled over 0..Len()-1) or Handle.Primary(); key ID, output prefix, adapter prefix and map key stored with a primitive are computed from that same entry; the primary slot is assigned only under entry.IsPrimary(); accepting operations are tried only on candidates returned by PrimitivesMatchingPrefix(input) whose lookup uses exactly the 5 leading bytes under a length guard plus the prefix-less bucket; every logged key ID is read from the pair whose operation succeeded. No key ID is compared with the constant 0 (0 is a legal ID, not a sentinel). Behaviour of the wrapped primitives and rotation histories are not decided (C11 covers the manager).",
          "Trusted: go/ssa incl. range-over-func lowering; idioms recognised are listed in checker/rules/c05.go.",
          "DESIGN.md §4 C05"),
@@ -44,23 +44,23 @@ CLAIMED = {
          "Decides the static clause of C20: every byte of every IV/nonce/salt passed to Seal/NewCTR/nonce-named parameters in producing functions lies in a region completely filled by a dominating CSPRNG fill and is not written in between; the wrappers pass whole buffers to crypto/rand and do not mask; every stdlib generator/signing reader is crypto/rand.Reader; streaming writers draw salt and nonce prefix per call; every encapsulate draws fresh randomness on every success path and keeps nothing in the shared KEM object; hedged PQ signing fills its whole randomness array; every key creator draws its material from the CSPRNG with the parameters' size. The distribution itself is crypto/rand's (assumed).",
          "Trusted: crypto/rand; go/ssa; the two named deterministic nonce derivations (HPKE computeNonce, streaming generateSegmentNonce) are exceptions whose random inputs are checked.",
          "DESIGN.md §4 C20, §2 engine F"),
- "C14": ("census of Handle allocation / constructor call sites; must-validate dominance; constant folding of validateKey over the enum product and of every strength validator at its boundaries; Validate's loop folded as a finite automaton over abstract keys (primary ID? x status x duplicate ID?) from every reachable loop state, guard-shape rules as fallback",
+ "C14": ("census of Handle allocation / constructor call sites; must-validate dominance; constant folding of validateKey over the enum product and of every strength validator at its boundaries; constant-folded Ed25519 key constructors over material lengths; Validate's loop folded as a finite automaton over abstract keys (primary ID? x status x duplicate ID?) from every reachable loop state, guard-shape rules as fallback",
          "Decides structural clauses of C14: handles are allocated only in newFromEntries, proto keysets become entries only after Validate()==nil; validateKey accepts exactly {TINK,LEGACY,RAW,CRUNCHY}x{ENABLED,DISABLED,DESTROYED} (every enum constant and an out-of-range probe folded), nil key data rejected; Validate rejects nil/empty keysets, repeated IDs (map fed on every iteration), non-ENABLED or second primaries and succeeds only with an ENABLED primary found; the strength validators reject exactly below the library minimums (AES {16,32}, RSA >=2048 & e=65537, ECDSA curve/hash table incl. every weaker combination, HKDF-PRF, HMAC-PRF, CMAC-PRF) and constructors pass through them. Run-time panic freedom of all parsers and behavioural self-consistency are not decided.",
          "Trusted: go/ssa; constant propagation over pure validator functions; the abstraction of Validate's loop state (flags, counters saturated at 2) and of the ID set by 'already seen'.",
          "DESIGN.md §4 C14"),
- "C09": ("dominance/order and value-identity rule for VerifiedJWT construction; constant folding of validateHeader over its 64-row truth table and of validateFieldPresence; normalised comparison guards of validateTimestamps; census of clock reads, base64 alphabets and kid encoders; type-level JWK export arms",
+ "C09": ("dominance/order and value-identity rule for VerifiedJWT construction; constant folding of validateHeader over its 64-row truth table and of validateFieldPresence; normalised comparison guards of validateTimestamps; census of clock reads, base64 alphabets and kid encoders; type-level JWK export arms; dominance of a complete character scan (folded predicate) over every direct base64 decode",
          "Decides structural clauses of the JWT accept decision: a VerifiedJWT exists only after signature/MAC verification of the content, header validation of that same content and Validator.Validate of that same RawJWT, in that order; validateHeader's decision equals the rule (alg equal, no crit, kid rules) on all 64 input combinations; the presence matrix on all 8; the three timestamp rejections have exactly the stated comparison direction and skew sign with 'now' sampled per call; skew <= 10 min; base64url only; every key-ID kid is base64url of the 4-byte big-endian ID on all three sides; JWK export handles only public types and filters by Enabled; the presence accessors of RawJWT decide presence, not content. JSON/base64 decoding and claim round trips are not decided.",
          "Trusted: go/ssa; structpb accessors; time.Time.After/Add semantics.",
          "DESIGN.md §4 C09"),
- "C07": ("authentication must-pass-through for segment decrypters; dominance of the decryption verdict over every copy to the caller; error-discipline census of underlying I/O calls; nonce-input value rules and counter-increment path rules; CFG path rule for the keyset-level retry reader",
+ "C07": ("authentication must-pass-through for segment decrypters; dominance of the decryption verdict over every copy to the caller; error-discipline census of underlying I/O calls; nonce-input value rules and counter-increment path rules; CFG path rule for the keyset-level retry reader; confirmed argument table of the subtle streaming constructors",
          "Decides the structural clauses of C07 (NOT chunking independence, which quantifies over call histories): the stream writer emits its whole buffer (segments are the internal buffer from offset 0, or caller memory only where the buffer is known empty); no Read on an underlying reader has its count discarded; the replaying wrapper of the keyset-level reader records everything it reads on every return path; segment decrypters succeed only under a passed tag check for every segment length; Reader.Read releases only authenticated plaintext; no underlying I/O error is dropped (16 call sites); segment nonces are prefix||be32(counter)||last with the 2^32-1 limit, own counters incremented on every emitting path, last=false/true/at-EOF; Write after Close fails and Close is idempotent; the keyset-level reader rewinds before each next candidate and fails when none matches.",
          "Trusted: go/ssa; stdlib Open/hmac.Equal; io.ReadFull EOF conventions.",
          "DESIGN.md §4 C07"),
- "C12": ("constant folding of every enum table pair (serialize∘parse inverse on all enum constants); shape rules for the keyset<->entries loops; argument-flow rules for ID requirements, type URL constants, optional sub-message presence; constant-field census",
+ "C12": ("constant folding of every enum table pair (serialize∘parse inverse on all enum constants); shape rules for the keyset<->entries loops; argument-flow rules for ID requirements, type URL constants, optional sub-message presence; constant-field census; accessor-name/field-name agreement of serializers; ID-requirement flow through the 29 key creators; ParseKey provenance of entry keys",
          "Decides the structural conditions C12 rests on: for every pair of enum table functions A->(B,error)/B->(A,error) (found by type in 30+ packages) parse(serialize(a))=a on every constant and unknown values are errors; keyset<->entries conversions and Public() map every entry in a complete same-index loop with the same ID/status/primary (RAW => ID requirement 0); parsers hand keySerialization.IDRequirement() on and serializers hand key.IDRequirement() to NewKeySerialization (or insist on RAW); type URLs are the package constants on both sides; optional custom kid presence by nil test; no serializer writes a constant into a field the parser reads back, none copies a proto field from a differently named field of another message, no key ID is compared with 0, and a constructor whose parser canonicalises a big integer stores the canonical form. Byte-identical re-serialization and Equal semantics are not decided.",
          "Trusted: go/ssa; constant propagation over pure table functions; protobuf library.",
          "DESIGN.md §4 C12"),
- "C06": ("accept-side rules (auth fixpoint, prefix, tiling, bounds) for HybridDecrypt; literal tables vs transcribed RFC 9180/IANA values; constant folding of hash->size and enum->string tables (digest sizes, injectivity); inter-procedural argument-flow of contextInfo to the key schedule",
+ "C06": ("accept-side rules (auth fixpoint, prefix, tiling, bounds) for HybridDecrypt; literal tables vs transcribed RFC 9180/IANA values; constant folding of hash->size and enum->string tables (digest sizes, injectivity); inter-procedural argument-flow of contextInfo to the key schedule; right-alignment of big-integer bytes in fixed-width slots as linear offsets",
          "Decides structural clauses of C06 (NOT byte-level interoperability): plaintext only under AEAD-open/DEM-decrypt success, exact prefix, in-bounds slicing of the encapsulated key/header; KEM/KDF/AEAD ids, version label, kemLengths and suite-id composition equal RFC 9180 §7/IANA; every hash->size table gives the standard digest sizes; enum->name tables of the hybrid packages are injective; contextInfo of every Encrypt/Decrypt reaches the info_hash labeled extract (HPKE) or the HKDF info argument (ECIES); the KEM/KDF/AEAD factories, folded on every RFC 9180 identifier, build an object carrying that identifier and the hash / key length RFC 9180 assigns to it.",
          "Trusted: go/ssa; the transcribed standard tables in checker/rules/c06.go; stdlib AEAD Open.",
          "DESIGN.md §4 C06"),
